@@ -368,6 +368,43 @@ def interrupt_resume_violations():
     return out, prog
 
 
+def cached_waiter_violations(runner, waiter_cached, producer_cached):
+    """A waiter (and / or its producer) with cache=True, the graph run twice against ONE cache: in the warm run the waiter's start is
+    served from the cache - it still consumed the signal.  Per run the waiter starts (is scheduled: function call or cache hit) as
+    often as the signal is produced, and the warm run returns what the cold run returned."""
+    from hypergraph.cache import InMemoryCache
+
+    from ..dsl import build
+
+    prog = T.prog(
+        [
+            T.fn("announce", ["seed"], ["banner"], emit=["go"], **({"cache": True} if producer_cached else {})),
+            T.fn("inc", ["n"], ["n"], behav={"py": "n + 1"}),
+            T.route("chk", ["n"], ["inc", "END"], behav={"py": "END if n >= 3 else 'inc'"}),
+            T.fn("audit", ["n"], ["audited"], wait_for=["go"], behav={"py": "('audited', n)"}, **({"cache": True} if waiter_cached else {})),
+        ]
+    )
+    p = T.set_async(prog, runner == "async")
+    h = H()
+    g = build(p, h)
+    cache = InMemoryCache()
+    out = []
+    views = []
+    for k in range(3):
+        s0 = len(h.steps)
+        x = execute(p, {"seed": ["prov", "seed"], "n": 0}, runner=runner, h=h, graph=g, cache=cache, max_iterations=40)
+        steps = [t for t in h.steps[s0:] if t.depth == 0]
+        starts = sum(1 for t in steps if "audit" in t.ready)
+        prods = sum(1 for t in steps if "announce" in t.ready)
+        views.append((x.status, None if x.result is None else tuple(sorted((k_, repr(v)) for k_, v in x.result.values.items()))))
+        if x.status == "completed" and starts != prods:
+            out.append(({"symptom": "waiter-restarted-without-new-production" if starts > prods else "waiter-owed-at-quiescence", "cached": True}, f"run #{k + 1} on one cache ({runner}; cached waiter={waiter_cached}, cached producer={producer_cached}): the waiter was started {starts}x for {prods} production(s) of the signal"))
+            break
+    if not out and len(set(views)) != 1:
+        out.append(({"symptom": "warm-run-differs-from-cold-run", "cached": True}, f"{runner}; cached waiter={waiter_cached}, cached producer={producer_cached}: the three runs returned {jsonable(views)}"))
+    return out, prog
+
+
 def run_shard(shard):
     tier, seed, i = shard
     acc = Acc()
@@ -400,6 +437,14 @@ def run_shard(shard):
             for ch, x in explore_nd(p, inputs, runner, horizon=min(5, meta["horizon"]), acc=acc, case_key=name + "/unpruned", judge=_judge(p, inputs), bound=0, max_execs=30000, prune=False, suspend=False):
                 un += 1
             acc.counters["unpruned_executions"] += un
+    if i == 2:
+        for runner in ("sync", "async"):
+            for wc, pc in ((True, False), (False, True), (True, True)):
+                vs, cp = cached_waiter_violations(runner, wc, pc)
+                acc.evaluations += 3
+                acc.key(("cached-waiter", runner, wc, pc))
+                for sig, msg in vs:
+                    acc.violation(sig, {"cached_waiter": [runner, wc, pc], "program": cp}, msg)
     if i == 0:
         for runner in ("sync", "async"):
             for N in range(0, 6 if tier == "quick" else 12):
@@ -419,6 +464,8 @@ def coverage_extra(acc, tier, seed):
 def replay(rep):
     if "interrupt_resume" in rep:
         return [m for _, m in interrupt_resume_violations()[0]]
+    if "cached_waiter" in rep:
+        return [m for _, m in cached_waiter_violations(*rep["cached_waiter"])[0]]
     if "exact_loop" in rep:
         return [m for _, m in exact_loop_violations(rep["runner"], rep["exact_loop"])[0]]
     prog, inputs, runner = rep["program"], rep["inputs"], rep["runner"]
